@@ -156,4 +156,214 @@ example : ∀ A, allocate Avo.Gen.regs spCopyFn = .ok A → ∀ e ∈ A, isSPorK
 example : (b : R) → checkBindOne Avo.Gen.regs [(257, 256)] ⟨257, 15⟩ b = none → b.id ∈ candidates Avo.Gen.regs kindGP :=
   fun b h => (checkBindOne_in_colour_set _ _ _ b h (by decide)).1
 
+/-! ### Whole files: every function of every file through `pass.Compile`
+
+`pass.Compile` takes a FILE: `FunctionPass(p).Execute` sweeps all functions with one stage and stops at the first
+error, then the next stage sweeps all functions. The property speaks of the compiled output, i.e. of every function
+of the file. -/
+
+/-- the allocation stages on ONE function: allocate, bind + verify, encodability -/
+def compileFn (tbl : List RegRow) (is : List AInstr) : Except AErr (List (Nat × Nat)) :=
+  match allocate tbl is with
+  | .error e => .error e
+  | .ok al =>
+    if !verifyBound tbl al is then .error .nonPhysical
+    else if !verifyEncodable tbl al is then .error .highByte
+    else .ok al
+
+/-- **File-level model**: `compileFile` = all functions compile (function by function, first error wins). -/
+def compileFile (tbl : List RegRow) : List (List AInstr) → Except AErr (List (List (Nat × Nat)))
+  | [] => .ok []
+  | f :: fs =>
+    match compileFn tbl f with
+    | .error e => .error e
+    | .ok a =>
+      match compileFile tbl fs with
+      | .error e => .error e
+      | .ok as => .ok (a :: as)
+
+/-- stage `FunctionPass(AllocateRegisters)` over the file -/
+def allocAll (tbl : List RegRow) : List (List AInstr) → Except AErr (List (List (Nat × Nat)))
+  | [] => .ok []
+  | f :: fs =>
+    match allocate tbl f with
+    | .error e => .error e
+    | .ok a =>
+      match allocAll tbl fs with
+      | .error e => .error e
+      | .ok as => .ok (a :: as)
+
+/-- stages `FunctionPass(BindRegisters)`, `FunctionPass(VerifyAllocation)` over the file -/
+def verifyAll (tbl : List RegRow) : List (List AInstr) → List (List (Nat × Nat)) → Except AErr Unit
+  | f :: fs, a :: as =>
+    if !verifyBound tbl a f then .error .nonPhysical
+    else if !verifyEncodable tbl a f then .error .highByte
+    else verifyAll tbl fs as
+  | _, _ => .ok ()
+
+/-- **The library's order**: one stage over all functions, then the next stage over all functions. -/
+def compileFileStaged (tbl : List RegRow) (fs : List (List AInstr)) : Except AErr (List (List (Nat × Nat))) :=
+  match allocAll tbl fs with
+  | .error e => .error e
+  | .ok as =>
+    match verifyAll tbl fs as with
+    | .error e => .error e
+    | .ok _ => .ok as
+
+def okB {α : Type} : Except AErr α → Bool
+  | .ok _ => true
+  | .error _ => false
+
+/-- **compileFile ok ⇔ every function compiles** (as a Boolean equation, for all files). -/
+theorem compileFile_okB (tbl : List RegRow) (fs : List (List AInstr)) :
+    okB (compileFile tbl fs) = fs.all (fun f => okB (compileFn tbl f)) := by
+  induction fs with
+  | nil => rfl
+  | cons f fs ih =>
+    simp only [compileFile, List.all_cons]
+    cases hf : compileFn tbl f with
+    | error e => simp [okB]
+    | ok a =>
+      cases hfs : compileFile tbl fs with
+      | error e => rw [hfs] at ih; simp [okB] at ih ⊢; exact ih
+      | ok as => rw [hfs] at ih; simp [okB] at ih ⊢; exact ih
+
+/-- **Some function has no valid assignment ⇒ compiling the file fails** — wherever the function stands in the
+file (first, in the middle, last) and whatever the other functions do. -/
+theorem compileFile_err_of_fn_err (tbl : List RegRow) (fs : List (List AInstr)) (f : List AInstr) (hf : f ∈ fs)
+    (e : AErr) (he : compileFn tbl f = .error e) : ∃ e', compileFile tbl fs = .error e' := by
+  have h := compileFile_okB tbl fs
+  have hall : fs.all (fun f => okB (compileFn tbl f)) = false := by
+    apply Bool.eq_false_iff.mpr
+    intro hall
+    have := List.all_eq_true.mp hall f hf
+    simp [he, okB] at this
+  rw [hall] at h
+  cases hc : compileFile tbl fs with
+  | error e' => exact ⟨e', rfl⟩
+  | ok as => rw [hc] at h; simp [okB] at h
+
+/-- **compileFile ok ⇒ every function compiled, each with its own allocation** (one allocation per function, in order). -/
+theorem compileFile_ok_each (tbl : List RegRow) : ∀ (fs : List (List AInstr)) (als : List (List (Nat × Nat))),
+    compileFile tbl fs = .ok als → als.length = fs.length ∧ ∀ p ∈ fs.zip als, compileFn tbl p.1 = .ok p.2
+  | [], als, h => by simp [compileFile] at h; subst h; simp
+  | f :: fs, als, h => by
+    simp only [compileFile] at h
+    cases hf : compileFn tbl f with
+    | error e => simp [hf] at h
+    | ok a =>
+      cases hfs : compileFile tbl fs with
+      | error e => simp [hf, hfs] at h
+      | ok as =>
+        simp [hf, hfs] at h
+        subst h
+        obtain ⟨hl, hall⟩ := compileFile_ok_each tbl fs as hfs
+        refine ⟨by simp [hl], ?_⟩
+        intro p hp
+        simp only [List.zip_cons_cons, List.mem_cons] at hp
+        rcases hp with rfl | hp
+        · exact hf
+        · exact hall p hp
+
+theorem compileFn_ok (tbl : List RegRow) (f : List AInstr) (al : List (Nat × Nat)) (h : compileFn tbl f = .ok al) :
+    allocate tbl f = .ok al ∧ verifyBound tbl al f = true ∧ verifyEncodable tbl al f = true := by
+  unfold compileFn at h
+  cases ha : allocate tbl f with
+  | error e => simp [ha] at h
+  | ok a =>
+    simp only [ha] at h
+    by_cases h1 : verifyBound tbl a f = true
+    · by_cases h2 : verifyEncodable tbl a f = true
+      · simp [h1, h2] at h; subst h; exact ⟨rfl, h1, h2⟩
+      · simp [h1, h2] at h
+    · simp [h1] at h
+
+/-- **C03 for files.** For every file: if the model of `Compile` succeeds, then in EVERY function of the file every
+operand register is bound — no virtual register remains — and is bound as the statement `BoundOK` demands. -/
+theorem compileFile_bound_ok (fs : List (List AInstr)) (als : List (List (Nat × Nat)))
+    (h : compileFile Avo.Gen.regs fs = .ok als) :
+    als.length = fs.length ∧ ∀ p ∈ fs.zip als, ∀ i ∈ p.1, ∀ r ∈ i.regs, ∃ b, bindReg Avo.Gen.regs p.2 r = some b ∧
+      BoundOK Avo.Gen.regs p.2 r b ∧ idIsVirtual b.id = false := by
+  obtain ⟨hl, hall⟩ := compileFile_ok_each _ fs als h
+  refine ⟨hl, ?_⟩
+  intro p hp i hi r hr
+  obtain ⟨ha, hv, _⟩ := compileFn_ok _ p.1 p.2 (hall p hp)
+  have hsome := List.all_eq_true.mp (List.all_eq_true.mp hv i hi) r hr
+  obtain ⟨b, hb⟩ := Option.isSome_iff_exists.mp hsome
+  have hok := compile_bound_ok p.1 p.2 ha r b hb
+  exact ⟨b, hb, hok, hok.1⟩
+
+/-- The library's stage-major order and the function-major model succeed on the same files with the same
+allocations (which error is reported when several functions fail is not part of the property). -/
+theorem compileFileStaged_ok_iff (tbl : List RegRow) : ∀ (fs : List (List AInstr)) (als : List (List (Nat × Nat))),
+    compileFileStaged tbl fs = .ok als ↔ compileFile tbl fs = .ok als
+  | [], als => by simp [compileFileStaged, compileFile, allocAll, verifyAll]
+  | f :: fs, als => by
+    have ih := compileFileStaged_ok_iff tbl fs
+    unfold compileFileStaged at ih ⊢
+    simp only [allocAll, compileFile, compileFn]
+    cases ha : allocate tbl f with
+    | error e => simp
+    | ok a =>
+      cases hfs : allocAll tbl fs with
+      | error e =>
+        have : ∀ as, compileFile tbl fs ≠ .ok as := by
+          intro as hc
+          have := (ih as).mpr hc
+          simp [hfs] at this
+        cases hc : compileFile tbl fs with
+        | error e' => by_cases h1 : verifyBound tbl a f = true <;> by_cases h2 : verifyEncodable tbl a f = true <;> simp [h1, h2]
+        | ok as => exact absurd hc (this as)
+      | ok as =>
+        simp only [verifyAll]
+        by_cases h1 : verifyBound tbl a f = true
+        · by_cases h2 : verifyEncodable tbl a f = true
+          · simp only [h1, h2, Bool.not_true, Bool.false_eq_true, if_false]
+            have ih' := ih
+            simp only [hfs] at ih'
+            cases hv : verifyAll tbl fs as with
+            | error e =>
+              have hne : ∀ bs, compileFile tbl fs ≠ .ok bs := by
+                intro bs hc
+                have := (ih' bs).mpr hc
+                simp [hv] at this
+              cases hc : compileFile tbl fs with
+              | error e' => simp
+              | ok bs => exact absurd hc (hne bs)
+            | ok u =>
+              have hc : compileFile tbl fs = .ok as := (ih' as).mp (by simp [hv])
+              simp [hc]
+          · simp [h1, h2]
+        · simp [h1]
+
+/-- The model of `Compile` passes the file acceptor on every file: with `perFn` = what each function does on its own,
+`checkFile` never fires (the acceptor `accept-file` states exactly this of the implementation). -/
+theorem compileFile_checkFile (tbl : List RegRow) (fs : List (List AInstr)) :
+    checkFile (fs.map (fun f => if okB (compileFn tbl f) then FnOutcome.ok else FnOutcome.err)) (okB (compileFile tbl fs)) = none := by
+  unfold checkFile
+  split
+  · rename_i hc
+    rw [compileFile_okB] at hc
+    rw [List.findIdx?_eq_none_iff]
+    intro o ho
+    obtain ⟨f, hf, rfl⟩ := List.mem_map.mp ho
+    have := List.all_eq_true.mp hc f hf
+    simp [this]
+  · rfl
+
+/-- Non-vacuity: a three-function file whose MIDDLE function keeps 16 general-purpose values alive at once has no
+compilation, in either order of the stages; without that function it compiles. -/
+def over16 : List AInstr :=
+  let vs := (List.range 16).map (fun k => (⟨newid 1 kindGP k, 15⟩ : R))
+  (List.range 16).map (fun k => ⟨[vs.getD k default], [vs.getD k default], ((vs.take (k + 1)).map (fun r => (r.id, r.mask))), [true]⟩) ++
+  (List.range 16).map (fun k => ⟨[vs.getD k default], [], ((vs.drop (k + 1)).map (fun r => (r.id, r.mask))), [true]⟩)
+
+theorem over16_file_fails :
+    okB (compileFn Avo.Gen.regs over16) = false ∧
+    okB (compileFile Avo.Gen.regs [spCopyFn, over16, exampleFn]) = false ∧
+    okB (compileFileStaged Avo.Gen.regs [spCopyFn, over16, exampleFn]) = false ∧
+    okB (compileFile Avo.Gen.regs [over16, exampleFn]) = false ∧
+    okB (compileFile Avo.Gen.regs [spCopyFn, exampleFn]) = true ∧
+    okB (compileFileStaged Avo.Gen.regs [spCopyFn, exampleFn]) = true := by decide +kernel
+
 end Avo.Alloc
